@@ -53,6 +53,15 @@ def int_pool(tier, rng):
     for n in (0, 1, 2):
         for x in nn[:8]:
             out += [p.Power(x, n), p.Product((p.Power(x, n), 3)), p.Sum((p.Power(p.Sum((x, 1)), n), b))]
+    # powers with exponent 0, 1, 2 of a product / remainder / floor division / sum as the divisor or a factor of a multiplicative node (the printer
+    # writes them as 1, the base, base*base: the base keeps the grouping the power gave it)
+    pb = [p.Product((p.Sum((b, 1)), p.Sum((c, 1)))), p.Sum((b, 1)), p.Sum((p.Remainder(b, 3), 1)), p.Sum((p.FloorDiv(b, 2), 1))]
+    for n in (0, 1, 2):
+        for base in pb:
+            pw = p.Power(base, n)
+            out += [p.FloorDiv(p.Product((a, 50)), pw), p.Remainder(p.Sum((a, 30)), pw), p.Product((a, pw)), p.Product((pw, a)), p.FloorDiv(pw, 2), p.Remainder(pw, 5),
+                    p.Product((2, p.Power(p.Remainder(p.Sum((a, 7)), p.Sum((c, 2))), n))), p.Product((a, p.Power(p.FloorDiv(p.Sum((a, 9)), p.Sum((c, 1))), n))),
+                    p.Sum((a, p.Product((-1, pw))))]
     cmps = [p.Comparison(x, op, y) for op in ("<", "<=", ">", ">=", "==", "!=") for x, y in ((a, b), (p.Sum((a, 1)), p.Product((b, 2))))]
     for cm in cmps:
         out += [cm, p.If(cm, a, p.Sum((b, 1))), p.Sum((p.If(cm, a, b), c)), p.Product((2, p.If(cm, p.Sum((a, b)), c))), p.LogicalNot(cm),
@@ -188,6 +197,10 @@ def double_pool(tier, rng):
     for u, v in itertools.product(pos, repeat=2):
         out += [p.Quotient(u, v), p.Sum((u, p.Product((-1, v)))), p.Product((u, p.Quotient(1, v))), p.Power(u, v) if v in (2.5, x) else p.Power(u, 3), p.Quotient(p.Sum((u, 1)), p.Sum((v, 1))),
                 p.Quotient(u, p.Product((v, 2.0))), p.Quotient(p.Quotient(u, v), x), p.Quotient(u, p.Quotient(v, x))]
+    for n in (0, 1, 2):
+        for base in (p.Product((x, y)), p.Quotient(x, y), p.Sum((x, y))):
+            pw = p.Power(base, n)
+            out += [p.Quotient(x, pw), p.Quotient(pw, y), p.Product((x, pw)), p.Quotient(1.5, p.Product((pw, y)))]
     out += [p.Call(fl, (p.Quotient(x, y),)), p.Call(fa, (p.Sum((x, p.Product((-1, y)))),)), p.Power(x, -1), p.Power(p.Sum((x, y)), 0.5), p.Power(x, p.Sum((y, 1))),
             p.If(p.Comparison(x, "<", y), p.Quotient(x, y), p.Quotient(y, x)), p.Power(p.Power(x, 2), 0.5), p.Power(2.0, x), p.Product((-1.5, x)), p.Sum((-0.25, x)), p.Power(x, 1), p.Power(x, 0)]
     return out
